@@ -103,15 +103,21 @@ fn flat_game(dump: &Dump<String, String>, t: &Tree, meth: &str, k: usize) -> Val
         "pl": pl, "info": info, "cw": cw, "nacts": nacts})
 }
 
+/// probabilities as exact rationals [n, d] where a small denominator reproduces the float, else as
+/// micro-units [round(x * 1e6), 1000000]
 fn rats(v: &[f64]) -> Value {
     Value::Array(
         v.iter()
             .map(|x| match util::reconstruct(*x, 30000) {
                 Some((n, d)) => json!([n, d]),
-                None => json!([0, 0]),
+                None => json!([(x * 1e6).round() as i64, 1000000]),
             })
             .collect(),
     )
+}
+
+fn exact(v: &[f64]) -> bool {
+    v.iter().all(|x| util::reconstruct(*x, 30000).is_some())
 }
 
 fn site_name(s: Site) -> &'static str {
@@ -173,7 +179,7 @@ fn observed(t: &Tree, meth: &str, preset: &str, k: usize, iters: u64, inject: Op
             match ev {
                 Event::Draw(site, i, pass, w, ix, ov) => {
                     overridden |= *ov;
-                    draws.push(json!({"site": site_name(*site), "info": i + 1, "ix": ix + 1, "pass": pass, "w": rats(w)}))
+                    draws.push(json!({"site": site_name(*site), "info": i + 1, "ix": ix + 1, "pass": pass, "w": rats(w), "exact": exact(w)}))
                 }
                 Event::Frontier(q, w) => {
                     queue = q.iter().map(|x| x + 1).collect();
